@@ -34,6 +34,18 @@ SCENARIO("cast") {
   G Y = X.cast<Sym>();
   out("X", X.coeffs()); out("Y", Y.coeffs());
 }
+#if defined(VS_NATIVE) && !defined(FAM_Rn)
+// native only (two real floating-point types are involved): a float element, valid in float, is cast to double
+SCENARIO("cast_widen") {
+  typedef G::LieGroupTemplate<float> GF;
+  GF Xf;
+  for (int i = 0; i < Rep; ++i) Xf.coeffs()(i) = static_cast<float>(mk_var("x" + std::to_string(i)));
+  Xf.normalize();
+  G Y = Xf.cast<double>();
+  Eigen::Matrix<double, Rep, 1> xf = Xf.coeffs().cast<double>();
+  out("Xf", xf); out("Y", Y.coeffs());
+}
+#endif
 #ifndef FAM_Rn
 SCENARIO("normalize") {
   G X;
